@@ -45,19 +45,43 @@ struct Cluster {
     nodes: Vec<Node>,
     delay_ms: u64,
     confirm_delay_ms: u64,
+    port_lock: PathBuf,
 }
 
-fn free_port() -> u16 {
-    TcpListener::bind("127.0.0.1:0").unwrap().local_addr().unwrap().port()
+/// Ports for one cluster: a block of 12 between vp-resp's range and the kernel's ephemeral range, reserved across
+/// processes with a lock file for as long as the cluster lives.  (Ports taken from the ephemeral range were stolen:
+/// while the nemesis had a node down, another shard's new cluster was handed that node's port, and the first
+/// cluster's clients were then acknowledged by the other cluster.)
+fn reserve_ports(salt: u64) -> (u16, PathBuf) {
+    let dir = std::env::temp_dir().join("vp-multinode-ports");
+    let _ = std::fs::create_dir_all(&dir);
+    let mut x = salt ^ std::process::id() as u64;
+    for _ in 0..2000 {
+        let idx = vpc::splitmix(&mut x) % 100;
+        let base = 30_100 + (idx as u16) * 24;
+        let lock = dir.join(format!("{base}.lock"));
+        if let Ok(md) = std::fs::metadata(&lock) {
+            if md.modified().ok().and_then(|m| m.elapsed().ok()).map(|e| e > Duration::from_secs(3 * 3600)).unwrap_or(false) {
+                let _ = std::fs::remove_file(&lock);
+            }
+        }
+        if std::fs::OpenOptions::new().write(true).create_new(true).open(&lock).is_err() {
+            continue;
+        }
+        if (0..12).all(|k| TcpListener::bind(("127.0.0.1", base + k)).is_ok()) {
+            return (base, lock);
+        }
+        let _ = std::fs::remove_file(&lock);
+    }
+    panic!("no free port block");
 }
 
 impl Cluster {
     fn new(server: &str, root: &Path, n: usize, rf: u8, partitions: u16, delay_ms: u64) -> Cluster {
-        let mut ports = BTreeSet::new();
-        while ports.len() < 2 * n { ports.insert(free_port()); }
-        let ports: Vec<u16> = ports.into_iter().collect();
+        let (base, port_lock) = reserve_ports(root.to_string_lossy().bytes().fold(7u64, |a, b| a.wrapping_mul(131) ^ b as u64));
+        let ports: Vec<u16> = (0..2 * n as u16).map(|k| base + k).collect();
         let nodes = (0..n).map(|i| Node { idx: i, dir: root.join(format!("node{i}")), client_port: ports[2 * i], cluster_port: ports[2 * i + 1], child: None, stopped: false, restarts: 0 }).collect();
-        Cluster { server: server.to_string(), root: root.to_path_buf(), n, rf, partitions, nodes, delay_ms, confirm_delay_ms: 0 }
+        Cluster { server: server.to_string(), root: root.to_path_buf(), n, rf, partitions, nodes, delay_ms, confirm_delay_ms: 0, port_lock }
     }
     fn config_path(&self, i: usize) -> PathBuf { self.root.join(format!("node{i}.toml")) }
     fn write_config(&self, i: usize) {
@@ -106,7 +130,7 @@ impl Cluster {
 }
 
 impl Drop for Cluster {
-    fn drop(&mut self) { self.kill_all(); }
+    fn drop(&mut self) { self.kill_all(); let _ = std::fs::remove_file(&self.port_lock); }
 }
 
 #[derive(Clone, Debug)]
